@@ -440,7 +440,12 @@ func (x *Exec) navSet(old Value, t types.Type, path []step, nv Value) Value {
 	st := path[0]
 	switch u := t.Underlying().(type) {
 	case *types.Struct:
-		os := old.(*Struct)
+		os, isS := old.(*Struct)
+		if !isS {
+			// a struct owned by another module is an opaque value: after a field store it is
+			// some other opaque value
+			return x.freshValue("opaque", t)
+		}
 		ns := &Struct{Fields: append([]Value{}, os.Fields...)}
 		ns.Fields[st.field] = x.navSet(os.Fields[st.field], u.Field(st.field).Type(), path[1:], nv)
 		return ns
